@@ -231,7 +231,10 @@ func DecompressToG2(m []byte) (*bn256.G2, error) {
 	// Get one of the two possible Y on curve y² = x³ + twistB.
 	y2 := new(gfP2).pow(x, big.NewInt(3))
 	y2.add(y2, twistB)
-	y := sqrtGfP2(y2)
+	y, err := sqrtGfP2(y2)
+	if err != nil {
+		return nil, err
+	}
 
 	// Compare calculated Y parity with the original Y parity in the top bit of
 	// the compressed point. If it doesn't match, we know `Y1 + Y2 = P`, so we
@@ -268,19 +271,25 @@ func x2y(x, y *gfP2) bool {
 	return y.x.Cmp(x.x) == 0 && y.y.Cmp(x.y) == 0
 }
 
-// sqrtGfP2 returns square root of a gfP2 element.
-func sqrtGfP2(x *gfP2) *gfP2 {
+// sqrtGfP2 returns square root of a gfP2 element or an error if the element
+// is not a square.
+func sqrtGfP2(x *gfP2) (*gfP2, error) {
 
 	// (bn256.p^2 + 15) // 32)
 	var exp = bigFromBase10("14971724250519463826312126413021210649976634891596900701138993820439690427699319920245032869357433499099632259837909383182382988566862092145199781964622")
 
 	y := new(gfP2).pow(x, exp)
 
-	// Multiply y by hexRoot constant to find correct y.
-	for !x2y(x, y) {
+	// Multiply y by hexRoot constant to find correct y. hexRoot is a 16th
+	// root of unity so there are at most 16 candidates; if none of them
+	// squares to x, x is not a square and has no root.
+	for i := 0; !x2y(x, y); i++ {
+		if i == 16 {
+			return nil, errors.New("failed to decompress G2")
+		}
 		y.multiply(y, hexRoot)
 	}
-	return y
+	return y, nil
 }
 
 // pow returns gfP2 element to the power of the provided exponent.
